@@ -15,7 +15,7 @@ from claripy.backends.backend_vsa.errors import ClaripyVSAError
 from claripy.errors import BackendError
 from claripy.operations import backend_operations_vsa_compliant, expression_set_operations
 
-from .bool_result import BoolResult, FalseResult, TrueResult
+from .bool_result import BoolResult, FalseResult, MaybeResult, TrueResult
 from .discrete_strided_interval_set import DiscreteStridedIntervalSet
 from .strided_interval import StridedInterval
 from .valueset import ValueSet
@@ -76,6 +76,24 @@ class BackendVSA(Backend):
         self._op_raw["__xor__"] = self._op_xor
         self._op_raw["__and__"] = self._op_and
         self._op_raw["__mod__"] = self._op_mod
+        self._op_raw["__eq__"] = self._op_eq
+        self._op_raw["__ne__"] = self._op_ne
+
+    @staticmethod
+    def _op_eq(a, b):
+        # two Booleans: BoolResult.__eq__ compares the abstract values structurally and answers with a Python bool
+        # (Maybe == Maybe would be a definite True); what is wanted is the three-valued equivalence
+        if isinstance(a, BoolResult) and isinstance(b, BoolResult):
+            if BoolResult.is_maybe(a) or BoolResult.is_maybe(b):
+                return MaybeResult()
+            return TrueResult() if BoolResult.is_true(a) == BoolResult.is_true(b) else FalseResult()
+        return operator.__eq__(a, b)
+
+    @staticmethod
+    def _op_ne(a, b):
+        if isinstance(a, BoolResult) and isinstance(b, BoolResult):
+            return ~BackendVSA._op_eq(a, b)
+        return operator.__ne__(a, b)
 
     @staticmethod
     def _op_add(*args):
